@@ -13,6 +13,7 @@ pub fn make_job(job: &str, tier: Tier) -> Option<Box<dyn Job>> {
         "sweep-C01" => Box::new(Sweep::new(Mode::C01, tier, &h)),
         "sweep-C02" => Box::new(Sweep::new(Mode::C02, tier, &h)),
         "sweep-C03" => Box::new(Sweep::new(Mode::C03, tier, &h)),
+        "ladder-C01" => Box::new(crate::sweep::Ladder::new(tier)),
         _ => return None,
     })
 }
@@ -26,7 +27,9 @@ pub fn worker(job: &str, tier: Tier, _extra: &[String]) -> i32 {
         eprintln!("unknown job {job}");
         return 2;
     };
-    pool::worker_main(j, hang_budget(tier))
+    // a ladder case times 6-8 inputs of growing size: it gets a larger budget
+    let budget = if job.starts_with("ladder") { Duration::from_secs(tier.pick(60, 600)) } else { hang_budget(tier) };
+    pool::worker_main(j, budget)
 }
 
 fn harvest_or_fail(report: &mut Report) -> harvest::Harvest {
@@ -56,6 +59,21 @@ fn run_sweep(id: &str, mode: Mode, tier: Tier, rule: &str) -> i32 {
         report.machinery(format!(
             "language ids without a harness row: {unknown:?} (add to frontends::LANG_IDS)"
         ));
+    }
+    if mode == Mode::C01 && std::env::var("HV_FAMILIES").is_err() {
+        let ladder = crate::sweep::Ladder::new(tier);
+        report.set("pumped_ladder_units", ladder.cases.len() as u64);
+        let cfg = PoolConfig { job: "ladder-C01".into(), tier, extra_args: vec![], chunk: 4, workers: ncpu() };
+        pool::run_pool(&ladder, &cfg, &mut report);
+        let done = report.get("evaluations");
+        report.set("pumped_ladder_units_completed", done);
+        // the sweep below counts its own evaluations: keep the two apart
+        report.coverage.remove("evaluations");
+        report.coverage.remove("distinct_nontrivial");
+        report.set("ladder_evaluations", done);
+        let lh = report.get("hangs_or_aborts");
+        report.coverage.remove("hangs_or_aborts");
+        report.set("ladder_hangs_or_aborts", lh);
     }
     let job = Sweep::new(mode, tier, &h);
     report.set(
